@@ -20,7 +20,18 @@ fn nd10(x: u128) -> usize {
 }
 
 /// ndigits in base 2^k: smallest n >= 1 with x < 2^(k*n)
-fn ndpow2(x: u128, k: u32) -> usize {
+/// loop-free characterisation: n is the digit count of x in radix 2^k  <=>  n >= 1, (2^k)^(n-1) <= x (or x == 0 and
+/// n == 1) and x < (2^k)^n
+pub fn is_ndpow2(x: u128, k: u32, n: usize) -> bool {
+    if n == 0 || n > 128 { return false; }
+    let n = n as u32;
+    let lo_ok = if n == 1 { true } else { (n - 1) * k < 128 && (x >> ((n - 1) * k)) != 0 };
+    let hi_ok = n * k >= 128 || (x >> (n * k)) == 0;
+    lo_ok && hi_ok
+}
+
+#[allow(dead_code)]
+pub fn ndpow2(x: u128, k: u32) -> usize {
     let mut n = 1usize;
     while (n as u32) * k < 128 {
         if x >> ((n as u32) * k) == 0 { return n; }
@@ -76,17 +87,17 @@ pub mod pow2 {
         /// @prop C03 C09 C06
         /// @feat pow2 radix
         /// @fn lexical-write-integer::digit_count::DigitCount::digit_count (digit_log2/4/8/16/32)
-        #[cfg_attr(kani, kani::unwind(130))]
+        #[cfg_attr(kani, kani::unwind(4))]
         fn digit_count_pow2_all() {
             let x: u128 = any();
             let k: u32 = any();
             assume(k >= 1 && k <= 5);
             let r = 1u32 << k;
-            vcheck!(x.digit_count(r) == ndpow2(x, k), "digit_count(u128, 2^k) == ndigits");
-            vcheck!((x as u64).digit_count(r) == ndpow2((x as u64) as u128, k), "digit_count(u64, 2^k) == ndigits");
-            vcheck!((x as u32).digit_count(r) == ndpow2((x as u32) as u128, k), "digit_count(u32, 2^k) == ndigits");
-            vcheck!((x as u16).digit_count(r) == ndpow2((x as u16) as u128, k), "digit_count(u16, 2^k) == ndigits");
-            vcheck!((x as u8).digit_count(r) == ndpow2((x as u8) as u128, k), "digit_count(u8, 2^k) == ndigits");
+            vcheck!(is_ndpow2(x, k, x.digit_count(r)), "digit_count(u128, 2^k) == ndigits");
+            vcheck!(is_ndpow2((x as u64) as u128, k, (x as u64).digit_count(r)), "digit_count(u64, 2^k) == ndigits");
+            vcheck!(is_ndpow2((x as u32) as u128, k, (x as u32).digit_count(r)), "digit_count(u32, 2^k) == ndigits");
+            vcheck!(is_ndpow2((x as u16) as u128, k, (x as u16).digit_count(r)), "digit_count(u16, 2^k) == ndigits");
+            vcheck!(is_ndpow2((x as u8) as u128, k, (x as u8).digit_count(r)), "digit_count(u8, 2^k) == ndigits");
             cover(x == u128::MAX && k == 5);
         }
     }
